@@ -36,6 +36,23 @@ CHECKS['C19'] = {
              'position-wise tuples LINE(e,p); distinct line objects assumed in the unbounded contract (aliasing covered by the bounded self-merge cases).'),
 }
 
+CHECKS['C02'] = {
+    'level': 'other',
+    'technique': 'bounded stand-in: run-time contract of the real decoder against executable specs (CTC alpha recursion, reference beam search), exhaustive over a finite grid of matrices',
+    'text': ('BOUNDED, not proved: distinct transcripts, vis_sc <= CTC log-probability, exact bag when unpruned, equality with a reference '
+             'frame-synchronous k-best prefix beam search, rejection of unnormalised input, on every matrix with quarter-probability rows '
+             '(T<=3, 3 classes, k in {1,2,3,1e6}, default and non-pruning selector). The inductive invariant of the beam loop is not claimed.'),
+    'note': 'Trusted: executable specs (alpha recursion validated against enumeration of all alignments), float comparisons with 1e-6 tolerance; nothing outside the grid is decided.',
+}
+CHECKS['C03'] = {
+    'level': 'other',
+    'technique': 'hybrid: deductive proof of best_hyp/total_scores contracts (z3) + bounded run-time contract of the decoder with a prefix-hash toy LM over a finite grid',
+    'text': ('PROVED for all bags: best_hyp returns the first maximiser of vis_sc + lm_weight*lm_sc, the key posteriors()/confidence() use. '
+             'BOUNDED: with a history-dependent toy LM every lm_sc equals the LM\'s own sum (+bonus, +eos), best_hyp maximises vis+scale*lm, '
+             'confidence and returned state belong to it, scale 0 reproduces LM-free decoding (grid of C02 x scale x bonus x eos x init state).'),
+    'note': 'Trusted: pyvc; toy LM stands for all history-dependent LMs; real LMWrapper (torch) not verified; LM bookkeeping invariant of the beam loop not proved.',
+}
+
 NOT_APPLICABLE = {
     'C20': ('equality up to round-off of float tensors produced by torch C++ kernels through module-resident caches across calls: no contract '
             'within reach can state it over reals, no finite domain makes a bounded check exhaustive; a random differential test would be a different technique (DESIGN.md §6)'),
